@@ -6,12 +6,14 @@
 (* A matrix is a record [n, kind, ml, mu, data]:                           *)
 (*   n     size (only square matrices are modelled; m = n)                 *)
 (*   kind  "I" (Identity), "F" (Full), "B" (Banded{ml,mu})                 *)
-(*   data  the backing Vec<Float> as a 1-based sequence of small integers  *)
+(*   data  the backing Vec<Float> as a 1-based sequence of graded numbers  *)
+(*         (Graded.tla: small integers, and m * 2^(80e) carried as integer *)
+(*         codes; arithmetic is GAdd / GSub / GMul = exact IEEE results)   *)
 (*         (code index idx0 is data[idx0+1])                               *)
 (* Rust indices (i,j) are 0-based and kept 0-based here.                   *)
 (* Every operator that can panic in the code returns [panic, ...].         *)
 (***************************************************************************)
-EXTENDS Integers, Sequences
+EXTENDS Integers, Sequences, Graded
 
 Zeros(k) == [x \in 1..k |-> 0]
 Const(k, v) == [x \in 1..k |-> v]
@@ -115,8 +117,8 @@ BandSlot(n, ml, mu, data, mlo, muo, idx0) ==
 
 \* iterator zip: length of the shorter
 Zip2(a, b, Op(_, _)) == [x \in 1..(IF Len(a) <= Len(b) THEN Len(a) ELSE Len(b)) |-> Op(a[x], b[x])]
-Plus(x, y) == x + y
-Minus(x, y) == x - y
+Plus(x, y) == GAdd(x, y)
+Minus(x, y) == GSub(x, y)
 
 (* ------------------------------ Add / Sub (add.rs, sub.rs) -------------- *)
 \* sign = 1 for Add, -1 for Sub.  Both assert equal n first (assert_eq! -> panic).
@@ -130,14 +132,16 @@ AddSub(a, b, sign) ==
       [] a.kind = "F" /\ b.kind = "F" ->
            [panic |-> FALSE,
             mat |-> Mat(n, "F", 0, 0, IF sign = 1 THEN Zip2(a.data, b.data, Plus)
-                                      ELSE [x \in 1..Len(a.data) |-> IF x <= Len(b.data) THEN a.data[x] - b.data[x] ELSE a.data[x]])]
+                                      ELSE [x \in 1..Len(a.data) |-> IF x <= Len(b.data) THEN GSub(a.data[x], b.data[x]) ELSE a.data[x]])]
       [] a.kind = "B" /\ b.kind = "B" ->
            LET mlo == Max(a.ml, b.ml)
                muo == Max(a.mu, b.mu)
            IN [panic |-> FALSE,
                mat |-> Mat(n, "B", mlo, muo, [x \in 1..((mlo + muo + 1) * n) |->
-                          BandSlot(n, a.ml, a.mu, a.data, mlo, muo, x - 1)
-                          + sign * BandSlot(n, b.ml, b.mu, b.data, mlo, muo, x - 1)])]
+                          \* out = 0.0; out += a-slot; out (+|-)= b-slot
+                          LET sa == BandSlot(n, a.ml, a.mu, a.data, mlo, muo, x - 1)
+                              sb == BandSlot(n, b.ml, b.mu, b.data, mlo, muo, x - 1)
+                          IN IF sign = 1 THEN GAdd(sa, sb) ELSE GSub(sa, sb)])]
       [] OTHER ->
            [panic |-> FALSE,
             mat |-> Mat(n, "F", 0, 0, IF sign = 1 THEN Zip2(ToFull(a), ToFull(b), Plus)
@@ -154,26 +158,28 @@ ComponentAddSub(a, s, sign) ==
   LET n == a.n IN
   CASE a.kind = "I" -> Mat(n, "F", 0, 0, [x \in 1..(n * n) |->
                              IF (x - 1) \div n = (x - 1) % n
-                             THEN (IF sign = 1 THEN s + 1 ELSE 1 - s)
-                             ELSE (IF sign = 1 THEN s ELSE 0 - s)])
-    [] a.kind = "F" -> [a EXCEPT !.data = [x \in DOMAIN a.data |-> a.data[x] + sign * s]]
-    [] a.kind = "B" -> IF s = 0 THEN a
+                             THEN (IF sign = 1 THEN GAdd(s, 1) ELSE GSub(1, s))
+                             ELSE (IF sign = 1 THEN s ELSE GSub(0, s))])
+    [] a.kind = "F" -> [a EXCEPT !.data = [x \in DOMAIN a.data |->
+                             IF sign = 1 THEN GAdd(a.data[x], s) ELSE GSub(a.data[x], s)]]
+    [] a.kind = "B" -> IF s = 0 THEN a              \* `rhs == 0.0`: exact comparison, TINY is not zero
                        ELSE Mat(n, "F", 0, 0, [x \in 1..(n * n) |->
                               LET i == (x - 1) \div n
                                   j == (x - 1) % n
                                   r == (i - j) + a.mu
-                              IN IF r >= 0 /\ r < a.ml + a.mu + 1 THEN a.data[r * n + j + 1] + sign * s
-                                 ELSE (IF sign = 1 THEN s ELSE 0 - s)])
+                              IN IF r >= 0 /\ r < a.ml + a.mu + 1
+                                 THEN (IF sign = 1 THEN GAdd(a.data[r * n + j + 1], s) ELSE GSub(a.data[r * n + j + 1], s))
+                                 ELSE (IF sign = 1 THEN s ELSE GSub(0, s))])
 
 ComponentMul(a, s) ==
   CASE a.kind = "I" -> Diagonal(Const(a.n, s))
-    [] a.kind = "F" -> [a EXCEPT !.data = [x \in DOMAIN a.data |-> a.data[x] * s]]
-    [] a.kind = "B" -> Mat(a.n, "B", a.ml, a.mu, [x \in DOMAIN a.data |-> a.data[x] * s])
+    [] a.kind = "F" -> [a EXCEPT !.data = [x \in DOMAIN a.data |-> GMul(a.data[x], s)]]
+    [] a.kind = "B" -> Mat(a.n, "B", a.ml, a.mu, [x \in DOMAIN a.data |-> GMul(a.data[x], s)])
 
 ComponentMulMut(a, s) ==
   CASE a.kind = "I" -> Mat(a.n, "B", 0, 0, Const(a.n, s))
-    [] a.kind = "F" -> [a EXCEPT !.data = [x \in DOMAIN a.data |-> a.data[x] * s]]
-    [] a.kind = "B" -> [a EXCEPT !.data = [x \in DOMAIN a.data |-> a.data[x] * s]]
+    [] a.kind = "F" -> [a EXCEPT !.data = [x \in DOMAIN a.data |-> GMul(a.data[x], s)]]
+    [] a.kind = "B" -> [a EXCEPT !.data = [x \in DOMAIN a.data |-> GMul(a.data[x], s)]]
 
 ScalarOps == {"component_add", "component_sub", "component_mul", "component_mul_mut"}
 DoScalar(op, a, s) ==
